@@ -128,7 +128,16 @@ pub fn gen_rand(a: &Args, out: &mut Out, run0: u64, nruns: u64, strict_pct: u32)
 }
 
 // ---------------------------------------------------------------------------
-const PROGS: &[&str] = &[
+pub const PROG_ECHO: &str = "
+.orig x3000
+LOOP GETC
+     OUT
+     ADD R0, R0, #0
+     BRnp LOOP
+     HALT
+.end
+";
+pub const PROGS: &[&str] = &[
 // 0: echo until NUL, then print a string and halt
 "
 .orig x3000
@@ -576,9 +585,15 @@ pub fn gen_edge(a: &Args, out: &mut Out, run0: u64, stride: u16) -> u64 {
 }
 
 pub fn emit_machine(a: &Args, out: &mut Out) {
+    M::emit_os(out);
     let kind = a.get_str("kind", "all").to_string();
     if a.get_u64("dbg", 0) == 1 { FORCE_DBG.store(true, std::sync::atomic::Ordering::Relaxed); }
     if kind == "adv" { gen_adv(a, out, 1, a.get_u64("reps", if a.thorough() { 6 } else { 1 })); return; }
+    if kind == "load" { crate::scen2::gen_load(a, out, 1, a.get_u64("n", if a.thorough() { 400 } else { 40 })); return; }
+    if kind == "reset" { crate::scen2::gen_reset(a, out, 1, a.get_u64("n", if a.thorough() { 300 } else { 30 })); return; }
+    if kind == "repro" { crate::scen2::gen_repro(a, out, 1, a.get_u64("n", if a.thorough() { 200 } else { 20 })); return; }
+    if kind == "strictpairs" { crate::scen2::gen_strict_pairs(a, out, 1, a.get_u64("n", if a.thorough() { 400 } else { 40 }), false); return; }
+    if kind == "strictfull" { crate::scen2::gen_strict_pairs(a, out, 1, a.get_u64("n", if a.thorough() { 200 } else { 20 }), true); return; }
     if kind == "edge" { gen_edge(a, out, 1, a.get_u64("stride", if a.thorough() { 1 } else { 3 }) as u16); return; }
     let scale = if a.thorough() { 12 } else { 1 };
     let n = |k: &str, d: u64| a.get_u64(k, d * scale);
